@@ -2,6 +2,7 @@
 functions of their arguments and of the engine object (data / formulas given at construction)."""
 from pyvc import lib
 from pyvc import vals
+from pyvc.state import Unsupported
 from pyvc.vals import MAT, REAL, TTuple, TRef
 
 vals._SIMPLE['CythonEngine'] = TRef('CythonEngine')      # opaque library class
@@ -13,6 +14,15 @@ lib.PURE_LIB['float_of_vec0'] = REAL
 
 @lib.hook('ref_method')
 def engine_method(ex, st, recv, name, args, kwargs, node):
-    if recv.ty.cls == 'CythonEngine' and name in ('calculateLikelihood', 'calculateLikelihoodAndDerivatives'):
+    if recv.ty.cls == 'CythonEngine' and name == 'calculateLikelihood':
         return lib.pure_call(ex, st, 'engine.' + name, [recv] + list(args), kwargs, lib.PURE_LIB['engine.' + name])
+    if recv.ty.cls == 'CythonEngine' and name == 'calculateLikelihoodAndDerivatives':
+        # (x, fixed betas, literal ids, g, h, bh, hessian flag, bhhh flag): the three output
+        # buffers do not influence the result; `indices.values()` is identified with its dictionary
+        if len(args) != 8 or kwargs:
+            raise Unsupported('calculateLikelihoodAndDerivatives: unexpected arity')
+        x, fixed, ids, _g, _h, _bh, hes, bh = args
+        if ids.kind == 'py' and ids.py[0] == 'dictview' and ids.py[2] == 'values':
+            ids = ids.py[1]
+        return lib.pure_call(ex, st, 'engine.' + name, [recv, x, fixed, ids, hes, bh], {}, lib.PURE_LIB['engine.' + name])
     return None
